@@ -17,7 +17,9 @@ from gvmon.monitors import contracts, sqltrace
 
 RULE = ("feature sets of 12-90 lines over 2-6 seqids (mixed case, non-ASCII), 2-6 featuretypes (case variants, '_'), "
         "numeric-looking scores/sources, 3-8 distinct starts (ties everywhere), 4% '.' coordinates, extra columns; "
-        "queries = {all_features, features_of_type} x featuretype (none/str/list/tuple/set, present and absent types) x "
+        "queries = {all_features, features_of_type} x featuretype (none/str/list/tuple/set/frozenset/dict/dict.keys()/deque, "
+        "present and absent types; per feature set a block that rotates list, tuple, set, frozenset, dict, dict.keys() view, "
+        "collections.deque, generator, iter() x {0, 1, 2, 3..all} entries) x "
         "strand x order_by (none; each of the 12 sortable names singly - always run both as str and as 1-tuple; random "
         "pairs and triples as tuple or list) x reverse x (25%) limit= tuple/string with completely_within on/off; per "
         "database one 'counts' case (count_features_of_type for every candidate type, total, featuretypes(), seqids(), "
@@ -48,6 +50,17 @@ REQUIRED = ["queries executed", "calls of the real query methods", "result rows 
             "long featuretype collections (1000-1200 entries) queried", "long featuretype collections with duplicate entries",
             "long featuretype collections with order_by", "long featuretype collections with order_by and reverse",
             "sortedness checks on results of long featuretype collections",
+            # every kind of collection
+            "featuretype given as list", "featuretype given as tuple", "featuretype given as set",
+            "featuretype given as frozenset", "featuretype given as dict", "featuretype given as dict_keys",
+            "featuretype given as deque", "featuretype given as generator", "featuretype given as iterator",
+            "featuretype collections with 0 entries", "featuretype collections with 1 entry",
+            "featuretype collections with 2 entries", "featuretype collections with 3 or more entries",
+            "results compared for a featuretype given as frozenset / dict / dict view / deque",
+            "featuretype given as frozenset / dict / dict view / deque / one-shot iterator combined with strand",
+            "featuretype given as frozenset / dict / dict view / deque / one-shot iterator combined with order_by",
+            "featuretype given as frozenset / dict / dict view / deque / one-shot iterator combined with reverse",
+            "featuretype given as frozenset / dict / dict view / deque / one-shot iterator combined with limit",
             # odd text in featuretype / seqid / source
             "featuretype argument containing a comma: as a plain string", "featuretype argument containing a comma: inside a collection",
             "featuretype argument containing a comma: features stored under exactly that type",
@@ -91,6 +104,15 @@ REQUIRED = ["queries executed", "calls of the real query methods", "result rows 
 REQUIRED_CLASSES = ["order_by=" + c for c in M.ORDERABLE] + ["order_by: none", "order_by: 2 columns", "order_by: 3 columns",
                                                              "featuretype as str", "featuretype as list",
                                                              "featuretype as tuple", "featuretype as set",
+                                                             "featuretype as frozenset", "featuretype as dict",
+                                                             "featuretype as dict_keys", "featuretype as deque",
+                                                             "featuretype as generator", "featuretype as iterator",
+                                                             "featuretype collection: 0 entries", "featuretype collection: 1 entries",
+                                                             "featuretype collection: 2 entries", "featuretype collection: many entries",
+                                                             "featuretype as frozenset with many entries",
+                                                             "featuretype as dict with many entries",
+                                                             "featuretype as dict_keys with many entries",
+                                                             "featuretype as deque with many entries",
                                                              "featuretype none", "with strand", "with limit",
                                                              "feature set: odd", "feature set: plain",
                                                              "featuretype collection of 1000-1200 entries (with duplicates)",
@@ -109,7 +131,11 @@ ASSUMPTIONS = [
     "keys come from the input lines",
     "ties may come in any order; reverse is judged for a single column only (several columns: multiset only)",
     "input order is asked of all_features() without any filter or order_by only",
-    "empty featuretype collections are outside the statement and not generated",
+    "'collection' = anything that can be iterated more than once and has a length: list, tuple, set, frozenset, dict (its "
+    "keys), dict.keys() view, collections.deque; all are judged alike. A collection with 0 entries: the statement does not say "
+    "whether it filters everything out or not at all - both results are accepted, an exception is skipped and counted. A "
+    "generator / one-shot iterator is not a collection: if the call raises it is skipped and counted, if it returns the "
+    "result is judged like any other",
     "queries with limit= are judged with C06's overlap/within predicate on coordinates far below 2**29",
     "a featuretype given as a plain string names exactly one type, whatever characters it contains; an entry repeated in "
     "a featuretype collection does not repeat features in the result",
@@ -204,12 +230,28 @@ def ft_values(q):
     return list(q["ft"])
 
 
+def _generator(values):
+    for v in values:
+        yield v
+
+
+FT_MAKERS = {
+    "list": list, "tuple": tuple, "set": set, "frozenset": frozenset,
+    "dict": lambda vals: dict.fromkeys(vals, True),             # the keys are the featuretypes
+    "dict_keys": lambda vals: dict.fromkeys(vals).keys(),
+    "deque": lambda vals: __import__("collections").deque(vals),
+    "generator": lambda vals: _generator(list(vals)),           # one-shot
+    "iterator": lambda vals: iter(list(vals)),                  # one-shot
+}
+
+
 def ft_arg(q):
+    """A fresh object per call (one-shot iterators are used up by a call)."""
     if q["ft"] is None:
         return None
     if q["ft_form"] == "str":
         return q["ft"][0]
-    return {"list": list, "tuple": tuple, "set": set}[q["ft_form"]](ft_values(q))
+    return FT_MAKERS[q["ft_form"]](ft_values(q))
 
 
 def call(db, q, order_by, features=False):
@@ -287,6 +329,23 @@ def judge_query(ctx, case, db, rows, by_id, q, after_history=False):
     ft = set(ft_values(q)) if q["ft"] is not None else None
     want = [r["id"] for r in rows if M.matches(r, ft, q["strand"], q["limit"], q["within"])]
     long_ft = bool(q.get("ft_pad"))
+    form = q["ft_form"] if q["ft"] is not None else None
+    one_shot = form in G.ONE_SHOT_FORMS
+    empty_ft = q["ft"] is not None and not ft
+    if empty_ft:
+        # a collection without entries: the statement does not say whether that means 'no featuretype filter' or 'no
+        # featuretype matches' - both accepted (one of them, consistently within the call)
+        want_unfiltered = [r["id"] for r in rows if M.matches(r, None, q["strand"], q["limit"], q["within"])]
+    if form is not None and form != "str":
+        nent = len(ft)
+        ctx.mon("featuretype given as %s" % form)
+        ctx.mon("featuretype collections with %s" % ("0 entries" if nent == 0 else "1 entry" if nent == 1 else
+                                                      "2 entries" if nent == 2 else "3 or more entries"))
+        if form not in ("list", "tuple", "set"):
+            for what, on in (("strand", q["strand"]), ("order_by", q["order_by"] is not None), ("reverse", q["reverse"]),
+                             ("limit", q["limit"] is not None)):
+                if on:
+                    ctx.mon("featuretype given as frozenset / dict / dict view / deque / one-shot iterator combined with " + what)
     if long_ft:
         ctx.mon("long featuretype collections (1000-1200 entries) queried")
         ctx.mon("long featuretype collections: entries handed over", len(ft_values(q)))
@@ -343,6 +402,14 @@ def judge_query(ctx, case, db, rows, by_id, q, after_history=False):
         try:
             got = call(db, q, ob)
         except Exception as ex:
+            if one_shot or empty_ft:
+                # not a collection with entries: the statement is silent, the tree under test need not accept it
+                contracts.drain()
+                ctx.mon("featuretype given as %s: raised %s (statement silent: not judged)" % (
+                    "a one-shot iterator" if one_shot else "a collection with 0 entries", type(ex).__name__))
+                ctx.skip("featuretype given as %s: the call raises (statement silent)" % (
+                    "a one-shot iterator / generator" if one_shot else "a collection with 0 entries"))
+                continue
             for v in contracts.drain():
                 report(ctx, case, "contract", v)
             msg = repr(ex)[:200]
@@ -356,6 +423,16 @@ def judge_query(ctx, case, db, rows, by_id, q, after_history=False):
         stmts = [s for _, s in sqltrace.LOG if "FROM features" in s]
         ctx.mon("sql: ORDER BY seen" if any("ORDER BY" in s for s in stmts) else "sql: SELECT without ORDER BY seen")
         ctx.mon("result rows compared", len(got))
+        if one_shot:
+            ctx.mon("featuretype given as a one-shot iterator: accepted by the tree under test, result judged")
+        if empty_ft:
+            if M.multiset_diff(got, want) is None and want_unfiltered:
+                ctx.mon("featuretype collection with 0 entries: nothing returned (accepted)")
+            elif M.multiset_diff(got, want_unfiltered) is None:
+                ctx.mon("featuretype collection with 0 entries: treated as no featuretype filter (accepted)")
+                want = want_unfiltered
+        elif form is not None and form not in ("str", "list", "tuple", "set"):
+            ctx.mon("results compared for a featuretype given as frozenset / dict / dict view / deque")
         d = M.multiset_diff(got, want)
         if d:
             filt = "+".join(x for x in ("featuretype:" + str(q["ft_form"]) if q["ft"] is not None else "",
@@ -708,6 +785,11 @@ def account_query(ctx, setp, q, r, cls=None):
         for c in cols:
             ctx.classes["order_by (in a tuple)=" + c] += 1
     ctx.classes["featuretype as %s" % q["ft_form"] if q["ft"] is not None else "featuretype none"] += 1
+    if q["ft"] is not None and q["ft_form"] != "str":
+        n = len(set(q["ft"]))
+        size = "0" if n == 0 else "1" if n == 1 else "2" if n == 2 else "many"
+        ctx.classes["featuretype collection: %s entries" % size] += 1
+        ctx.classes["featuretype as %s with %s entries" % (q["ft_form"], size)] += 1
     if q.get("ft_pad"):
         ctx.classes["featuretype collection of 1000-1200 entries (%s)" % ("with duplicates" if q["ft_pad"]["dups"]
                                                                           else "no duplicates")] += 1
@@ -731,6 +813,7 @@ def run(ctx):
     nsets = 25 if quick else 100
     nq = ctx.budget(4 * 25 * 400, 16 * 100 * 260) // nsets
     nhist = 3 if quick else 5
+    nkinds = 45 if quick else 72
     for si in range(nsets):
         setp = {"seed": rng.randrange(1 << 30), "n": rng.choice([12, 25, 40, 60, 90])}
         flavor = (None, "empty", "odd", None, "norm", "odd")[si % 6]
@@ -765,6 +848,17 @@ def run(ctx):
                                          "deletes only" if nd else "rewrites only")] += 1
             ctx.case(("history", hi, repr(ops)) + tag, len(ops) >= 2 and r["expected"] >= 3, cls="queries after a history",
                      sample={"set": setp, "ops": ops[:6], "surviving features": r["expected"]})
+        # every kind of collection x {0, 1, 2, many} entries, combined with strand / order_by / reverse / limit as drawn
+        forms = G.COLLECTION_FORMS + G.ONE_SHOT_FORMS
+        combos = [(f, z) for z in ("1", "2", "many", "0") for f in forms]
+        for ki in range(nkinds):
+            q = G.gen_query(rng, SET, kinds=combos[(ki + si * 7) % len(combos)])
+            case = {"kind": "query", "set": setp, "query": q}
+            r = execute(ctx, case)
+            nontrivial = account_query(ctx, setp, q, r)
+            ctx.case(tag + (sorted((k, repr(v)) for k, v in q.items()),), nontrivial, cls="%s (collection kinds)" % q["api"],
+                     sample={"set": setp, "query": {k: v for k, v in q.items() if v is not None}, "expected rows": r["expected"],
+                             "distinct sort keys": r["nkeys"]})
         for qi in range(nq):
             q = G.gen_query(rng, SET, long_ft=(qi % 40 == 7))
             case = {"kind": "query", "set": setp, "query": q}
@@ -781,7 +875,8 @@ MANIFEST = {
     "technique": "tie-rich feature sets -> real create_db; all_features/features_of_type vs brute-force filter (multiset) + "
                  "sortedness under SQLite BINARY semantics; counts and distinct lists; icontract on make_query",
     "text": "Small feature sets with mixed-case and non-ASCII seqids, numeric-looking text columns and many ties are imported by "
-            "the real create_db. Every query (featuretype as str/list/tuple/set, strand, every sortable name singly - as str "
+            "the real create_db. Every query (featuretype as str or as a collection of any kind - list/tuple/set/frozenset/dict/dict view/deque with "
+            "0/1/2/many entries; one-shot iterators judged only if accepted -, strand, every sortable name singly - as str "
             "and as tuple - and in pairs/triples, reverse, optional limit=) is compared as a multiset of ids with a "
             "brute-force filter of the model rows, and the returned sequence is checked for sortedness (NULL first, integers "
             "numerically, text by UTF-8 bytes; ties free; reverse for one column only). count_features_of_type, "
